@@ -203,6 +203,74 @@ def handmade_memo(ctx, rule, want_file):
     rep.ok(rule, "cardillo", f"{n_fn} top-level functions scanned for value-remembering closures", trivial=True)
 
 
+def attribute_memos(ctx, rule, want_file):
+    """Third form of memoisation (besides cachetools decorators and closures): a method keeps its last result on the instance,
+        key = <f(params)>;  if key != self._k: self._k = key; self._v = <g(params)>;  return self._v
+    The remembered value is served whenever the key repeats, so every parameter g reads must be readable from the key expression."""
+    rep = ctx.rep
+    n_fn = n_memo = 0
+    for rel, mod in sorted(ctx.repo.modules.items()):
+        if not want_file(rel):
+            continue
+        for q, fn in mod.defs().items():
+            if not isinstance(fn, ast.FunctionDef):
+                continue
+            n_fn += 1
+            params = {a.arg for a in fn.args.args} - {"self"}
+            binds = {}
+            for w in ast.walk(fn):
+                if isinstance(w, ast.Assign) and len(w.targets) == 1 and isinstance(w.targets[0], ast.Name):
+                    binds.setdefault(w.targets[0].id, []).append(w.value)
+
+            def reads(e, seen=None):
+                seen = seen if seen is not None else set()
+                out = set()
+                for x in ast.walk(e):
+                    if isinstance(x, ast.Name):
+                        if x.id in params:
+                            out.add(x.id)
+                        elif x.id in binds and x.id not in seen:
+                            seen.add(x.id)
+                            for v in binds[x.id]:
+                                out |= reads(v, seen)
+                return out
+            for iff in [w for w in ast.walk(fn) if isinstance(w, ast.If)]:
+                t = iff.test
+                if not (isinstance(t, ast.Compare) and len(t.ops) == 1 and isinstance(t.ops[0], (ast.NotEq, ast.IsNot, ast.Eq, ast.Is))):
+                    continue
+                sides = [t.left, t.comparators[0]]
+                attr = [x for x in sides if isinstance(x, ast.Attribute) and dotted(x.value) == "self"]
+                other = [x for x in sides if x not in attr]
+                if len(attr) != 1 or len(other) != 1:
+                    continue
+                branch = iff.body if isinstance(t.ops[0], (ast.NotEq, ast.IsNot)) else iff.orelse
+                stores = {}
+                for st in branch:
+                    for w in ast.walk(st):
+                        if isinstance(w, ast.Assign) and len(w.targets) == 1 and isinstance(w.targets[0], ast.Attribute) and dotted(w.targets[0].value) == "self":
+                            stores[w.targets[0].attr] = w.value
+                if attr[0].attr not in stores:
+                    continue            # the compared attribute is not refreshed here: not a memo
+                vals = {a: v for a, v in stores.items() if a != attr[0].attr}
+                returned = {w.value.attr for w in ast.walk(fn) if isinstance(w, ast.Return) and isinstance(w.value, ast.Attribute) and dotted(w.value.value) == "self"}
+                returned |= {x.attr for w in ast.walk(fn) if isinstance(w, ast.Assign) and isinstance(w.value, ast.Attribute) and dotted(w.value.value) == "self" for x in [w.value]}
+                vals = {a: v for a, v in vals.items() if a in returned}
+                if not vals:
+                    continue
+                n_memo += 1
+                C = f"{rel}:{q}"
+                kreads = reads(other[0])
+                for a, v in vals.items():
+                    miss = sorted(reads(v) - kreads)
+                    if miss:
+                        rep.bad(rule, C, iff, f"`{fn.name}` keeps its last result in self.{a} and recomputes it only when `{norm_src(t)[:60]}`; the key is built from {sorted(kreads)} but the remembered "
+                                f"value also depends on {miss}: a call that repeats the key with another `{miss[0]}` is served the value of the earlier call", f"{rel}:{iff.lineno}")
+                    else:
+                        rep.ok(rule, C, f"instance-attribute memo self.{a}: every parameter the value reads is part of the key")
+    rep.ok(rule, "cardillo", f"{n_fn} functions scanned for instance-attribute memos ({n_memo} found)", trivial=True)
+    return n_memo
+
+
 def r1_keys(ctx, sites, rule="C26.R1", want_cls=lambda ci: True):
     """key completeness of the memoised methods of the selected classes; returns the parameters discharged at call sites"""
     rep = ctx.rep
@@ -252,6 +320,7 @@ def run(ctx):
     rep.rule("C26.R3", "no in-place mutation of memoised results by callers", 80)
     rep.rule("C26.R5", "hand-written memoisation (closures that remember their last value) compares every parameter it hands to the wrapped function", 0)
     handmade_memo(ctx, "C26.R5", lambda rel: rel.startswith("cardillo/"))
+    attribute_memos(ctx, "C26.R5", lambda rel: rel.startswith("cardillo/"))
     rep.rule("C26.R4", "one method per cache object; key lambda signature == method signature", 16)
     sites = find_sites(ctx)
     if len(sites) < 16:
